@@ -627,7 +627,12 @@ def gen_wrapper(draw, g):
             sub = gen_int(draw)
         return [o, sub]
     if o == "alignedstruct":
-        return ["alignedstruct", draw(st.integers(2, 4)), [[g.fresh(), gen_int(draw, maxbytes=3)] for _ in range(draw(st.integers(1, 3)))]]
+        def amember():
+            m = draw(st.sampled_from([gen_int(draw, maxbytes=3), gen_int(draw, maxbytes=3), ["varint"], ["bytes", draw(st.integers(0, 3))], ["cstr", "ascii"]]))
+            if g.has("docs") and draw(st.integers(0, 2)) == 0:
+                m = ["docs", m, "some documentation", draw(st.sampled_from(["inner", "outer"]))]     # ("name" / field * "doc": a second naming layer)
+            return m
+        return ["alignedstruct", draw(st.integers(2, 4)), [[g.fresh(), amember()] for _ in range(draw(st.integers(1, 3)))]]
     if o == "hexstruct":
         return [draw(st.sampled_from(["hex", "hexdump"])), draw(st.sampled_from([gen_int(draw), ["bytes", draw(st.integers(0, 4))]]))]
     raise AssertionError(o)
@@ -888,6 +893,8 @@ def gen_value(draw, spec, sc, vp=None):
         return [V(draw, spec[2], sc) for _ in range(max(n, 0))]
     if k == "grange":
         n = draw(st.integers(0, 4))
+        if fixed_size(spec[1]) in (1, 2) and draw(st.integers(0, 19)) == 0:
+            n = draw(st.sampled_from([255, 256, 257, 300]))      # many repetitions now and then (counts past one byte)
         if vp.limit is not None:
             ms = max(1, min_size(spec[1]))
             f = fixed_size(spec[1])
@@ -905,6 +912,9 @@ def gen_value(draw, spec, sc, vp=None):
         if spec[1][0] == "int":
             cap = min(cap, int_range(spec[1])[1])
         n = draw(st.integers(0, cap))
+        if fixed_size(spec[2]) in (1, 2) and draw(st.integers(0, 19)) == 0:
+            hi = int_range(spec[1])[1] if spec[1][0] == "int" else 1 << 20
+            n = draw(st.sampled_from([x for x in (127, 128, 255, 256, 300) if x <= hi] or [cap]))     # counts at the edges of the count field
         s2 = nested_scope(sc)
         return [V(draw, spec[2], s2) for _ in range(n)]
     if k == "select":
